@@ -22,12 +22,13 @@ def load_prop(pid):
     return importlib.import_module("vf.props." + pid.lower())
 
 
-def load_findings():
-    path = os.path.join(ROOT, "known_findings.json")
-    if not os.path.exists(path):
-        return []
-    with open(path) as f:
-        return json.load(f).get("findings", [])
+def load_findings(extra=None):
+    out = []
+    for path in [os.path.join(ROOT, "known_findings.json")] + ([extra] if extra else []):
+        if os.path.exists(path):
+            with open(path) as f:
+                out.extend(json.load(f).get("findings", []))
+    return out
 
 
 def match_finding(findings, pid, sig):
@@ -133,6 +134,7 @@ def main(argv=None):
     ap.add_argument("--inproc", action="store_true", help="run shards in this process (debugging)")
     ap.add_argument("--shard", type=int, help="only this shard index (debugging)")
     ap.add_argument("--no-evidence", action="store_true")
+    ap.add_argument("--extra-findings", help="development only: additional findings file")
     a = ap.parse_args(argv)
     if os.environ.get("VERIF_TIER") in ("quick", "thorough") and "--tier" not in (argv or sys.argv):
         a.tier = os.environ["VERIF_TIER"]
@@ -148,7 +150,7 @@ def main(argv=None):
     from vf.core import deps
     deps.ensure()
     prop = load_prop(pid)
-    findings = load_findings()
+    findings = load_findings(a.extra_findings)
 
     if a.replay:
         with open(a.replay) as f:
